@@ -481,6 +481,17 @@ func gen(g *hx.Gen) {
 		g.Emit("schema t=%s", t)
 		g.Emit("um t=%s data=-", t)
 		g.Emit("ms t=%s v=%s", t, randVals(r, g, t))
+		// every declared type byte (incl. '|' alternatives and a 0 tag, which must never match) and its neighbours
+		if tags, panicked := ssh.VerifTypeTags(ssh.VerifNew(t)); !panicked {
+			for _, e := range tags {
+				for _, d := range []byte{0, 1, 255} {
+					b := validMessage(r, g, t)
+					b[0] = e + d
+					g.Emit("um t=%s data=%s", t, hx.Hex(b))
+					g.Stat("um.tag-alternatives")
+				}
+			}
+		}
 	}
 	g.Emit("dec data=-") // decode indexes packet[0] unguarded
 	for t := 0; t < 256; t++ {
